@@ -422,6 +422,7 @@ Proof.
     destruct (block_ES f H2 j2 e2 HE2) as (j3 & Ej3 & HE3). rewrite E3. exact Hf. rewrite E3 in Ej3, HE3. cbn [snd fst] in Ej3, HE3. rewrite Ej3.
     eexists. split. reflexivity. exact HE3.
   - (* SPass *) cbn [sem_stmt snd fst] in *. eexists. split. reflexivity. exact HE.
+  - (* SDoc *) cbn [sem_stmt snd fst] in *. eexists. split. reflexivity. exact HE.
 Qed.
 
 (* ---------- the top level ---------- *)
@@ -517,6 +518,51 @@ Proof.
   intros x b Hl Hb. destruct (ES_head _ _ HE1) as (_ & _ & C & _).
   destruct (lookup_sub x _ _ C) as [L1 _]. apply L1; assumption.
 Qed.
+
+(* ---------- with the doctest examples ---------- *)
+Lemma doc_of_remove : forall s, doc_of (remove_stmt R s) = doc_of s.
+Proof. destruct s; reflexivity. Qed.
+Lemma is_assign_remove : forall s, is_assign (remove_stmt R s) = is_assign s.
+Proof. destruct s; reflexivity. Qed.
+Lemma epydoc_cons2 : forall a b r, epydoc (a :: b :: r) = (if is_assign a then doc_of b else []) ++ epydoc (b :: r).
+Proof. reflexivity. Qed.
+Lemma epydoc_remove : forall l, epydoc (map (remove_stmt R) l) = epydoc l.
+Proof.
+  induction l as [|a l IH]. reflexivity. destruct l as [|b r]. reflexivity.
+  cbn [map] in *. rewrite !epydoc_cons2, is_assign_remove, doc_of_remove, IH. reflexivity.
+Qed.
+Lemma docs_stmt_remove : forall s, docs_stmt (remove_stmt R s) = docs_stmt s.
+Proof. destruct s; reflexivity. Qed.
+Lemma docstrings_remove : forall p, docstrings_of (remove_top R p) = docstrings_of p.
+Proof.
+  intro p. unfold docstrings_of, remove_top. f_equal.
+  - destruct p as [|x r]; cbn [map container_docs]. reflexivity. rewrite doc_of_remove, epydoc_remove. reflexivity.
+  - induction p as [|x r IH]; cbn [map flat_map]. reflexivity. rewrite docs_stmt_remove, IH. reflexivity.
+Qed.
+
+Theorem remove_preserves_trace_doc_R : forall bi ns p,
+  (forall ln n l i, In (ln, n, Bound (BImp l i)) (pysem_doc bi ns p) -> R l i = false) ->
+  pysem_doc bi ns (remove_top R p) = pysem_doc bi ns p.
+Proof.
+  intros bi ns p H. unfold pysem_doc in *.
+  assert (Hok : oks (pysem bi ns p ++ flat_map (sem_docstring (final_frame bi ns p)) (docstrings_of p))).
+  { apply Forall_forall. intros [[ln n] r] Hin. cbn. destruct r as [[l i|]| |]; cbn; auto. eapply H. exact Hin. }
+  apply oks_app in Hok as [Hok1 Hok2].
+  assert (HE : ES [module_frame bi ns (remove_top R p)] [module_frame bi ns p]).
+  { constructor; [|constructor]. unfold module_frame. repeat split; cbn; try apply SubR_refl.
+    apply SubR_app. apply SubR_rev. apply bsrcs_remove_SubR. apply SubR_refl. }
+  unfold pysem in *. destruct (top_block_ES p _ _ HE Hok1) as (e1' & E & HE1).
+  rewrite E. cbn [snd]. f_equal. rewrite docstrings_remove.
+  unfold final_frame. rewrite E. cbn [fst].
+  pose proof (ES_head _ _ HE1) as HF.
+  set (M' := head e1') in *. set (M := head (fst (sem_block p [module_frame bi ns p]))) in *.
+  clear - HF Hok2. induction (docstrings_of p) as [|d ds IH]; cbn [flat_map] in *. reflexivity.
+  apply oks_app in Hok2 as [H1 H2]. rewrite (IH H2). f_equal.
+  unfold sem_docstring in *.
+  assert (HB : PB (fst d)) by (apply block_ES; apply Forall_forall; intros x _; apply stmt_ES).
+  destruct (HB [M'] [M]) as (j & Ej & _). constructor; [exact HF|constructor]. exact H1.
+  rewrite Ej. reflexivity.
+Qed.
 End Remove.
 
 Theorem remove_preserves_trace : forall bi ns p R,
@@ -525,3 +571,8 @@ Theorem remove_preserves_trace : forall bi ns p R,
   forall x b, lookup_b x (final_globals bi ns p) = Some b -> removed_src R b = false ->
               lookup_b x (final_globals bi ns (remove_top R p)) = Some b.
 Proof. intros bi ns p R. apply remove_preserves_trace_R. Qed.
+
+Theorem remove_preserves_trace_doc : forall bi ns p R,
+  (forall ln n l i, In (ln, n, Bound (BImp l i)) (pysem_doc bi ns p) -> R l i = false) ->
+  pysem_doc bi ns (remove_top R p) = pysem_doc bi ns p.
+Proof. intros bi ns p R. apply remove_preserves_trace_doc_R. Qed.
